@@ -3,6 +3,7 @@ package rules
 import (
 	"go/token"
 	"go/types"
+	"sort"
 	"strings"
 
 	"golang.org/x/tools/go/ssa"
@@ -12,18 +13,19 @@ import (
 
 func init() {
 	register(&core.Spec{
-		ID: "C19",
+		ID:          "C19",
 		Explanation: "Decides structural necessary conditions of C19: (CANCEL-GATE) in pipelineOp.exec the Canceled() test dominates the WaitGroup setup and every start of a form, the frame's context is replaced only on the background branch, and chunkOp.exec tests Canceled() before every normal return (so no further pipeline starts after an interrupt and an interrupted evaluation reports it); (ACQUIRE-CHECK) every semaphore Acquire result is tested and on the failure edge neither a goroutine is started nor Release is called (the bound is never exceeded and Release never panics with 'released more than held'); (INTERRUPTIBLE-BLOCK) no time.Sleep in builtin code and every wait on a timer channel is in a select that also watches the frame context's Done channel; (JOINED) every goroutine started in pkg/eval and pkg/mods is joined by its spawner (WaitGroup or done-channel, directly, in a deferred or in a returned cleanup function) or is one of the audited long-lived helpers. Promptness and real asynchronous schedules are not decided.",
 		NotCovered:  "promptness of interruption, behaviour of external commands, schedules",
-		Rules:       []string{"CANCEL-GATE", "ACQUIRE-CHECK", "INTERRUPTIBLE-BLOCK", "JOINED"},
+		Rules:       []string{"CANCEL-GATE", "ACQUIRE-CHECK", "INTERRUPTIBLE-BLOCK", "JOINED", "DONE-LAST: a goroutine writes nothing its spawner reads after a plain WaitGroup.Done"},
 		Patterns:    []string{"./pkg/eval/...", "./pkg/mods/..."},
 		Run: func(p *core.Program, r *core.Report) {
 			runCancelGate(p, r)
 			runAcquireCheck(p, r, "ACQUIRE-CHECK")
 			runInterruptibleBlock(p, r)
 			runJoined(p, r, "JOINED")
+			runDoneLast(p, r, "DONE-LAST")
 		},
-		MinCounts: map[string]int{"CANCEL-GATE": 4, "ACQUIRE-CHECK": 1, "INTERRUPTIBLE-BLOCK": 1, "JOINED": 8},
+		MinCounts: map[string]int{"DONE-LAST": 2, "CANCEL-GATE": 4, "ACQUIRE-CHECK": 1, "INTERRUPTIBLE-BLOCK": 1, "JOINED": 8},
 		Trusted:   trustedBase,
 		Controls: []core.Control{
 			{Name: "pipeline-drops-canceled-test", Rule: "CANCEL-GATE", File: "pkg/eval/compile_effect.go", Old: "func (op *pipelineOp) exec(fm *Frame) Exception {\n\tif fm.Canceled() {\n\t\treturn fm.errorp(op, ErrInterrupted)\n\t}\n", New: "func (op *pipelineOp) exec(fm *Frame) Exception {\n", Fire: true, Quick: true, Patterns: []string{"./pkg/eval"}},
@@ -33,18 +35,20 @@ func init() {
 			{Name: "acquire-failure-still-spawns", Rule: "ACQUIRE-CHECK", File: "pkg/eval/builtin_fn_flow.go", Old: "\t\t\t\tatomic.StoreInt32(&broken, 1)\n\t\t\t\treturn\n\t\t\t}\n\t\t\t// A callback that finished", New: "\t\t\t\tatomic.StoreInt32(&broken, 1)\n\t\t\t}\n\t\t\t// A callback that finished", Fire: true, Patterns: []string{"./pkg/eval"}},
 			{Name: "sleep-ignores-context", Rule: "INTERRUPTIBLE-BLOCK", File: "pkg/eval/builtin_fn_time.go", Old: "\tselect {\n\tcase <-fm.Context().Done():\n\t\treturn ErrInterrupted\n\tcase <-timeAfter(fm, d):\n\t\treturn nil\n\t}", New: "\t<-timeAfter(fm, d)\n\treturn nil", Fire: true, Patterns: []string{"./pkg/eval"}},
 			{Name: "revert-fix-pipe-failure-returns-without-waiting", Rule: "JOINED", File: "pkg/eval/compile_effect.go", Old: "\t\t\t\texcs[i] = fm.errorpf(op, \"failed to create pipe: %s\", e)\n\t\t\t\twg.Add(i - nforms)\n\t\t\t\tbreak\n", New: "\t\t\t\treturn fm.errorpf(op, \"failed to create pipe: %s\", e)\n", Fire: true, Want: "joined on every path", Quick: true, Patterns: []string{"./pkg/eval"}},
+			{Name: "peach-done-before-recording-the-exception", Rule: "DONE-LAST", File: "pkg/eval/builtin_fn_flow.go", Old: "\t\t\tnewFm.ports[0] = DummyInputPort\n\t\t\tex := f.Call(newFm, []any{v}, NoOpts)\n", New: "\t\t\tnewFm.ports[0] = DummyInputPort\n\t\t\tex := f.Call(newFm, []any{v}, NoOpts)\n\t\t\twg.Done()\n\t\t\twg.Add(1)\n", Fire: true, Want: "peach", Patterns: []string{"./pkg/eval"}},
+			{Name: "run-parallel-done-first", Rule: "DONE-LAST", File: "pkg/eval/builtin_fn_flow.go", Old: "\t\t\terr := function.Call(fm2, NoArgs, NoOpts)\n\t\t\tif err != nil {", New: "\t\t\terr := function.Call(fm2, NoArgs, NoOpts)\n\t\t\twg.Done()\n\t\t\twg.Add(1)\n\t\t\tif err != nil {", Fire: true, Want: "runParallel", Patterns: []string{"./pkg/eval"}},
 			{Name: "run-parallel-not-joined", Rule: "JOINED", File: "pkg/eval/builtin_fn_flow.go", Old: "\twg.Wait()\n\treturn MakePipelineError(exceptions)", New: "\treturn MakePipelineError(exceptions)", Fire: true, Patterns: []string{"./pkg/eval"}},
 			{Name: "fileport-cleanup-does-not-wait", Rule: "JOINED", File: "pkg/eval/port.go", Old: "\t\tclose(ch)\n\t\t<-relayDone\n\t}", New: "\t\tclose(ch)\n\t}", Fire: true, Patterns: []string{"./pkg/eval"}},
 			{Name: "benign-canceled-in-helper", Rule: "CANCEL-GATE", File: "pkg/eval/compile_effect.go", Old: "func (op *pipelineOp) exec(fm *Frame) Exception {\n\tif fm.Canceled() {\n\t\treturn fm.errorp(op, ErrInterrupted)\n\t}\n", New: "func (op *pipelineOp) exec(fm *Frame) Exception {\n\tif canceled := fm.Canceled(); canceled {\n\t\treturn fm.errorp(op, ErrInterrupted)\n\t}\n", Fire: false, Patterns: []string{"./pkg/eval"}},
 		},
 	})
 	register(&core.Spec{
-		ID: "C20",
+		ID:          "C20",
 		Explanation: "Decides structural necessary conditions of C20: (WG-DISCIPLINE) in peach and run-parallel every goroutine is preceded by wg.Add (or a bulk Add of the task count), calls wg.Done exactly once on every path, and the command returns only after wg.Wait on every path; (RECHECK) in peach, on every path to the go statement the 'broken' flag is read after the last blocking Acquire (so with one worker no callback starts after one has broken, as each does); (ERR-AGG) every write to peach's shared error is made under its mutex and every non-nil callback exception is recorded - no unchecked type assertion on a callee's error (run-parallel); (SEMA-PAIR) a worker slot acquired for a callback is released exactly once on every path of the worker, and a slot acquired but not used is released before returning. Output union and exactly-once-per-input under all schedules are not decided.",
 		NotCovered:  "that outputs are exactly the union of callback outputs; exactly-once per input under all schedules; exception ordering",
-		Rules:       []string{"WG-DISCIPLINE", "RECHECK", "ERR-AGG", "SEMA-PAIR", "ACQUIRE-CHECK"},
+		Rules:       []string{"WG-DISCIPLINE", "RECHECK", "ERR-AGG", "SEMA-PAIR", "ACQUIRE-CHECK", "DONE-LAST: a worker records its exception before it calls WaitGroup.Done"},
 		Patterns:    []string{"./pkg/eval"},
-		Run:         runC20,
+		Run:         func(p *core.Program, r *core.Report) { runC20(p, r); runDoneLast(p, r, "DONE-LAST") },
 		MinCounts:   map[string]int{"WG-DISCIPLINE": 4, "RECHECK": 1, "ERR-AGG": 2, "SEMA-PAIR": 2},
 		Trusted:     trustedBase,
 		Controls: []core.Control{
@@ -152,76 +156,108 @@ func runCancelGate(p *core.Program, r *core.Report) {
 		}
 	})
 	r.Anchor("CANCEL-GATE", "wg.Add / go / form start in pipelineOp.exec", n >= 2)
-	// context replaced only in background branch
-	core.Instrs(exec, func(ins ssa.Instruction) {
-		st, ok := ins.(*ssa.Store)
-		if !ok {
-			return
-		}
-		fa, ok := st.Addr.(*ssa.FieldAddr)
-		if !ok {
-			return
-		}
-		nT, f := core.FieldName(fa)
-		if nT == nil || nT.Obj().Name() != "Frame" || f != "ctx" {
-			return
-		}
-		isBg := func(v ssa.Value) bool {
-			if addr, ok := core.IsLoad(v); ok {
-				if fa2, ok := addr.(*ssa.FieldAddr); ok {
-					_, f2 := core.FieldName(fa2)
-					return f2 == "bg"
+	// context replaced only in background branch; the replacement may sit in
+	// a helper of pkg/eval that exec calls (forkForBackground)
+	type ctxSite struct {
+		fn    *ssa.Function
+		sites []ssa.Instruction // call sites in exec, nil for exec itself
+	}
+	ctxFns := []ctxSite{{exec, nil}}
+	{
+		bySite := map[*ssa.Function][]ssa.Instruction{}
+		core.Instrs(exec, func(ins ssa.Instruction) {
+			if c, ok := ins.(*ssa.Call); ok {
+				if callee := c.Call.StaticCallee(); callee != nil && callee != exec && callee.Blocks != nil && core.PkgPathOf(callee) == pkgEval {
+					bySite[callee] = append(bySite[callee], ins)
 				}
 			}
-			return false
+		})
+		for callee, sites := range bySite {
+			ctxFns = append(ctxFns, ctxSite{callee, sites})
 		}
-		// the frame whose context is replaced must be a private copy
-		base := fa.X
-		// fm may live in a cell (it is captured by the waiter goroutine):
-		// take the store that reaches this load within the block
-		if addr, ok := core.IsLoad(base); ok {
-			if cell, ok := addr.(*ssa.Alloc); ok {
-				ld := base.(ssa.Instruction)
-				instrs := ld.Block().Instrs
-				for i := len(instrs) - 1; i >= 0; i-- {
-					if instrs[i] == ld {
-						for j := i - 1; j >= 0; j-- {
-							if st2, ok := instrs[j].(*ssa.Store); ok && st2.Addr == ssa.Value(cell) {
-								base = st2.Val
-								break
+		sort.Slice(ctxFns[1:], func(i, j int) bool { return core.FnKey(ctxFns[1+i].fn) < core.FnKey(ctxFns[1+j].fn) })
+	}
+	for _, cs := range ctxFns {
+		cs := cs
+		core.Instrs(cs.fn, func(ins ssa.Instruction) {
+			st, ok := ins.(*ssa.Store)
+			if !ok {
+				return
+			}
+			fa, ok := st.Addr.(*ssa.FieldAddr)
+			if !ok {
+				return
+			}
+			nT, f := core.FieldName(fa)
+			if nT == nil || nT.Obj().Name() != "Frame" || f != "ctx" {
+				return
+			}
+			isBg := func(v ssa.Value) bool {
+				if addr, ok := core.IsLoad(v); ok {
+					if fa2, ok := addr.(*ssa.FieldAddr); ok {
+						_, f2 := core.FieldName(fa2)
+						return f2 == "bg"
+					}
+				}
+				return false
+			}
+			// the frame whose context is replaced must be a private copy
+			base := fa.X
+			// fm may live in a cell (it is captured by the waiter goroutine):
+			// take the store that reaches this load within the block
+			if addr, ok := core.IsLoad(base); ok {
+				if cell, ok := addr.(*ssa.Alloc); ok {
+					ld := base.(ssa.Instruction)
+					instrs := ld.Block().Instrs
+					for i := len(instrs) - 1; i >= 0; i-- {
+						if instrs[i] == ld {
+							for j := i - 1; j >= 0; j-- {
+								if st2, ok := instrs[j].(*ssa.Store); ok && st2.Addr == ssa.Value(cell) {
+									base = st2.Val
+									break
+								}
 							}
+							break
 						}
-						break
 					}
 				}
 			}
-		}
-		fresh := false
-		if c, ok := base.(*ssa.Call); ok && isFrameMethod(c, "Fork") {
-			fresh = true
-		}
-		if phi, ok := base.(*ssa.Phi); ok {
-			fresh = true
-			for _, e := range phi.Edges {
-				if c, ok := e.(*ssa.Call); !ok || !isFrameMethod(c, "Fork") {
-					fresh = false
+			fresh := false
+			if c, ok := base.(*ssa.Call); ok && isFrameMethod(c, "Fork") {
+				fresh = true
+			}
+			if phi, ok := base.(*ssa.Phi); ok {
+				fresh = true
+				for _, e := range phi.Edges {
+					if c, ok := e.(*ssa.Call); !ok || !isFrameMethod(c, "Fork") {
+						fresh = false
+					}
 				}
 			}
-		}
-		if _, ok := base.(*ssa.Alloc); ok {
-			fresh = true
-		}
-		if fresh {
-			r.OK("CANCEL-GATE", "(*eval.pipelineOp).exec context replaced on a private copy of the frame", p.InsPos(ins), "the frame written to is the result of fm.Fork()")
-		} else {
-			r.Bad("CANCEL-GATE", "(*eval.pipelineOp).exec context replaced on a private copy of the frame", p.InsPos(ins), "the caller's frame has its context replaced by an uncancellable one: after a background job has been started, the rest of the enclosing chunk no longer sees interrupts")
-		}
-		if dominatedByCondEdge(exec, isBg, true, ins.Block()) {
-			r.OK("CANCEL-GATE", "(*eval.pipelineOp).exec context replaced only for background jobs", p.InsPos(ins), "the store to Frame.ctx is on the true edge of op.bg")
-		} else {
-			r.Bad("CANCEL-GATE", "(*eval.pipelineOp).exec context replaced only for background jobs", p.InsPos(ins), "the frame's context is replaced outside the background branch: foreground pipelines would no longer see interrupts")
-		}
-	})
+			if _, ok := base.(*ssa.Alloc); ok {
+				fresh = true
+			}
+			if fresh {
+				r.OK("CANCEL-GATE", "(*eval.pipelineOp).exec context replaced on a private copy of the frame", p.InsPos(ins), "the frame written to is the result of fm.Fork()")
+			} else {
+				r.Bad("CANCEL-GATE", "(*eval.pipelineOp).exec context replaced on a private copy of the frame", p.InsPos(ins), "the caller's frame has its context replaced by an uncancellable one: after a background job has been started, the rest of the enclosing chunk no longer sees interrupts")
+			}
+			onBg := dominatedByCondEdge(exec, isBg, true, ins.Block())
+			if cs.sites != nil {
+				onBg = true
+				for _, site := range cs.sites {
+					if !dominatedByCondEdge(exec, isBg, true, site.Block()) {
+						onBg = false
+					}
+				}
+			}
+			if onBg {
+				r.OK("CANCEL-GATE", "(*eval.pipelineOp).exec context replaced only for background jobs", p.InsPos(ins), "the store to Frame.ctx (or the call of the helper that makes it) is on the true edge of op.bg")
+			} else {
+				r.Bad("CANCEL-GATE", "(*eval.pipelineOp).exec context replaced only for background jobs", p.InsPos(ins), "the frame's context is replaced outside the background branch: foreground pipelines would no longer see interrupts")
+			}
+		})
+	}
 	// chunkOp.exec: every `return nil` is on the not-canceled edge
 	nret := 0
 	core.Instrs(chunk, func(ins ssa.Instruction) {
@@ -462,7 +498,7 @@ func runJoined(p *core.Program, r *core.Report, rule string) {
 					}
 				}
 			}
-			joined :=(signals["wg"] && waits["wg"]) || ((signals["close"] || signals["send"]) && waits["recv"])
+			joined := (signals["wg"] && waits["wg"]) || ((signals["close"] || signals["send"]) && waits["recv"])
 			auditKey := fk
 			if why, ok := joinedAudit[auditKey]; ok {
 				r.Audit(rule, construct, p.InsPos(ins), why)
